@@ -36,6 +36,7 @@ import numpy as np
 from mc import core
 
 PROPERTY = 'C14'
+GUARD = ['numqi.group._internal', 'numqi.group._symmetric']  # argument-immutability oracle (mc.seams.ImmutabilityGuard)
 LEVEL = 'model_checking'
 RULE = ('finite domains enumerated completely: state = one point of the enumerated space (a group element, an ordered pair, an '
         'ordered triple of a Cayley table; an integer N; a partition; a standard tableau); transition = one call of a numqi '
